@@ -31,7 +31,8 @@ def issues_of(errors):
             p = e.obj.get_path()
         except Exception:
             p = "?"
-        out.append({"x": "%s|%s" % (type(e.obj).__name__, p), "k": e.validation_id.value if e.validation_id else 0, "rank": str(e.rank)})
+        out.append({"x": "%s|%s" % (type(e.obj).__name__, p), "k": e.validation_id.value if e.validation_id else 0, "rank": str(e.rank),
+                    "m": str(e.msg)})
     return out
 
 
@@ -40,14 +41,28 @@ def digest(doc):
     return hashlib.sha1(json.dumps(st, sort_keys=True).encode()).hexdigest()
 
 
+REPO_URL = "http://terminology.invalid/v1.1/term.xml"
+
+
+def term_doc():
+    t = odml.Document(author="terminology")
+    s = odml.Section(name="t", type="t", parent=t)
+    odml.Property(name="p1", values=[1], parent=s)
+    return t
+
+
 def base_doc():
-    doc = odml.Document(author="a")
+    from odml import terminology
+    terminology.terminologies[REPO_URL] = term_doc()      # already "loaded": no network is touched
+    doc = odml.Document(author="a", repository=REPO_URL)
     s1 = odml.Section(name="s1", type="t", parent=doc)
     s2 = odml.Section(name="s2", type="n.s.", parent=doc)          # a warning
     odml.Section(name="s3", type="t", parent=s1)
     odml.Property(name="p1", values=[1, 2], parent=s1, val_cardinality=(3, None))   # a warning
     odml.Property(name=None, values=["x"], parent=s2)                                # a warning (name = id)
     odml.Property(name="p3", values=["1", "2"], parent=s2, dtype="string")
+    odml.Property(name="p4", values=["2", "2.5"], parent=s2, dtype="string")       # looks like two other dtypes equally often
+    odml.Property(name="p5", values=["2020-01-01", "12:00:00", "x"], parent=s2, dtype="string")
     return doc
 
 
@@ -63,7 +78,8 @@ with contextlib.redirect_stdout(buf), contextlib.redirect_stderr(buf):
     errs = V.Validation(doc).errors
 out = []
 for e in errs:
-    out.append({"x": "%%s|%%s" %% (type(e.obj).__name__, e.obj.get_path()), "k": e.validation_id.value if e.validation_id else 0, "rank": str(e.rank)})
+    out.append({"x": "%%s|%%s" %% (type(e.obj).__name__, e.obj.get_path()), "k": e.validation_id.value if e.validation_id else 0, "rank": str(e.rank),
+                "m": str(e.msg)})
 print(json.dumps(out))
 """
 
@@ -82,7 +98,7 @@ def replay(t):
     path = os.path.join(tmpdir, "doc.xml")
     n = 0
     steps = list(hist)
-    xproc = int(hid[:4], 16) % 150 == 0          # a sample of histories is re-validated in another process
+    xproc = int(hid[:4], 16) % 150 == 0 or "xp" in t     # a sample of histories is re-validated in another process
     if xproc:
         steps.append("other_process")
     for i, op in enumerate(steps):
@@ -111,6 +127,9 @@ def replay(t):
                 # both documented ways of making a private validation
                 cur = V.Validation(doc, reset=True) if int(hid[4:6], 16) % 2 else V.Validation(doc, validate=False, reset=True)
                 registered = set()
+            elif op == "register_optional" and cur is not None:
+                cur.register_custom_handler("section", V.section_repository_present)
+                cur.register_custom_handler("property", V.property_terminology_check)
             elif op.startswith("register_") and cur is not None:
                 cur.register_custom_handler(op[9:], custom_rule)
                 registered.add(op[9:])
@@ -119,10 +138,10 @@ def replay(t):
                 issues = issues_of(cur.errors)
                 for s in doc.itersections():
                     if "section" in registered:
-                        expected.append({"x": "BaseSection|%s" % s.get_path(), "k": 701, "rank": "warning"})
+                        expected.append({"x": "BaseSection|%s" % s.get_path(), "k": 701, "rank": "warning", "m": "custom rule fired"})
                     for p in s.properties:
                         if "property" in registered:
-                            expected.append({"x": "BaseProperty|%s" % p.get_path(), "k": 701, "rank": "warning"})
+                            expected.append({"x": "BaseProperty|%s" % p.get_path(), "k": 701, "rank": "warning", "m": "custom rule fired"})
             elif op == "create_section":
                 n += 1
                 odml.Section(name="new%d" % n, type="t", parent=doc.sections[0], sec_cardinality=(0, 3))
@@ -143,7 +162,7 @@ def replay(t):
                 loaded = odml.load(path, show_warnings=False)
                 prevs["xp"] = (issues_of(V.Validation(loaded).errors), wpre)
                 lastkey = "xp"
-                env = dict(os.environ, PYTHONHASHSEED=str(1 + int(hid[6:10], 16) % 1000))
+                env = dict(os.environ, PYTHONHASHSEED=str(t["xp"] if "xp" in t else 1 + int(hid[6:10], 16) % 1000))
                 r = subprocess.run([sys.executable, "-c", CHILD % C.REPO, path], env=env, stdout=subprocess.PIPE,
                                    stderr=subprocess.PIPE, text=True, timeout=120)
                 issues = json.loads(r.stdout.strip().splitlines()[-1])
@@ -156,7 +175,7 @@ def replay(t):
             key = None
         yield {"fam": "registry", "src": "model", "hist": hist, "step": i, "op": op, "out": out, "exc": exc,
                "rules0": RULES0, "rules": registry_snapshot(), "worldpre": wpre, "worldpost": wpost,
-               "issues": issues, "prev": prev, "prevworld": prevworld, "custom_expected": expected}
+               "issues": issues, "custom_issues": [x for x in issues if x["k"] == 701], "prev": prev, "prevworld": prevworld, "custom_expected": expected}
         if key and op in VALIDATIONS and out == "ok":
             prevs[key] = (issues, wpost)
     import shutil
